@@ -1,0 +1,11 @@
+//go:build !verif
+// +build !verif
+
+package log
+
+// Verification hooks. Without the "verif" build tag every hook is an empty
+// function (inlined away); see verif_on.go for the instrumented build.
+
+func verifPoint(name string, s *segment) {}
+func verifSegClosed(s *segment)          {}
+func verifSegGet(s *segment)             {}
